@@ -264,6 +264,34 @@ pub fn interval(args: &[String]) {
             }
         }
     }
+    // tiny but non-zero intervals (the zero-interval shortcut must not swallow them): Success means the last sample is xend
+    {
+        let mut k = 0;
+        for method in ALL_METHODS {
+            for (x0, span) in [(0.0, 5e-16), (0.0, -9e-16), (0.0, 1.5e-15), (0.0, 3e-14), (1e-3, 6e-16), (0.0, 1e-300)] {
+                let xend = x0 + span;
+                let c = Cfg { kind: Kind::Harmonic, method, x0, xend, rtol: 1e-6, atol: 1e-9, first: None, maxstep: None, nmax: None };
+                let p = Prob::new(Kind::Harmonic);
+                let b = Budgeted { p: &p, limit: 3_000_000, nan_after: None, jump_at: None, x0 };
+                let res = catch_unwind(AssertUnwindSafe(|| solve_ivp(&b, x0, xend, &p.y0(), c.opts())));
+                let (mut why, mut key, mut extra) = (String::new(), "", String::new());
+                match res {
+                    Err(_) => { why = "solve_ivp panicked or exceeded the work budget".into(); key = "c04-hang-or-panic"; }
+                    Ok(Err(_)) => { extra = "\"status\":\"Err\",".into(); }
+                    Ok(Ok(sol)) => {
+                        let last = *sol.t.last().unwrap();
+                        extra = format!("\"status\":\"{:?}\",\"n\":{},\"last\":{},", sol.status, sol.t.len(), jnum(last));
+                        if sol.status == Status::Success && (last - xend).abs() > 4.0 * f64::EPSILON * xend.abs().max(x0.abs()) {
+                            key = "c03-success-not-reached";
+                            why = format!("Success on the interval [{:e}, {:e}] but the last sample is t = {:e} ({} samples)", x0, xend, last, sol.t.len());
+                        }
+                    }
+                }
+                out("iv", 400000 + k, &c, "tiny-interval", key, &why, &extra);
+                k += 1;
+            }
+        }
+    }
     // max_step dividing the span (with the controller sitting on max_step): the steps add up to xend minus a rounding
     // remainder; the run must still end with Success at xend
     {
